@@ -89,6 +89,108 @@ PARSE_PROFILE = {
         ("Function.Node(variable=_0)", "({{ variable_ := {0} }} : Py.Node)", "Py.Node", True, ["String"]),
     ],
 }
+# ---- Engine.is_ready (C19): the abstract configuration of Op/IsReady.lean
+RDY = "Op.Ready"
+RDY_ERR = "{{{{ σ with errors := σ.errors ++ [Op.Ready.Err.{0}] }}}}"
+READY_STMT = [
+    ("errors.append(f\"Engine '{self.name}' does not have any input variables\")", RDY_ERR.format("noInputs"), True),
+    ("errors.append(f\"Engine '{self.name}' does not have any output variables\")", RDY_ERR.format("noOutputs"), True),
+    ("errors.append(f\"Engine '{self.name}' does not have any rule blocks\")", RDY_ERR.format("noBlocks"), True),
+    # a component is named by its position (`variable` is a Lean keyword: the translator renames it `variable_`)
+    ("errors.append(f\"Output variable '{variable_.name}' does not have any terms\")", RDY_ERR.format("noTerms σ.variable_.1"), True),
+    ("errors.append(f\"Output variable '{variable_.name}' does not have any defuzzifier\")", RDY_ERR.format("noDefuzzifier σ.variable_.1"), True),
+    ("errors.append(f\"Output variable '{variable_.name}' does not have any aggregation operator\")",
+     RDY_ERR.format("noAggregation σ.variable_.1"), True),
+    ("errors.append(f'Rule block {name_or_index} does not have any rules')", RDY_ERR.format("noRules σ.index"), True),
+    ("errors.append(f\"Rule block {name_or_index} does not have any conjunction operator and is needed by {conjunction_needed} rule{'s'[:conjunction_needed ^ 1]}\")",
+     RDY_ERR.format("noConjunction σ.index"), True),
+    ("errors.append(f\"Rule block {name_or_index} does not have any disjunction operator and is needed by {disjunction_needed} rule{'s'[:disjunction_needed ^ 1]}\")",
+     RDY_ERR.format("noDisjunction σ.index"), True),
+    ("errors.append(f\"Rule block {name_or_index} does not have any implication operator and is needed by {implication_needed} rule{'s'[:implication_needed ^ 1]}\")",
+     RDY_ERR.format("noImplication σ.index"), True),
+]
+READY_EXT = [
+    ("errors is None", "errors0.isNone", "Bool", True),
+    ("self.input_variables", "e.inputs", "Nat", True),                                # only its truth value is used
+    ("self.output_variables", "(Op.Ready.enumFrom 0 e.outputs)", f"List (Nat × {RDY}.Output)", True),   # (position, variable)
+    ("self.rule_blocks", "e.blocks", f"List {RDY}.Block", True),
+    ("variable_.terms", "σ.variable_.2.hasTerms", "Bool", True),
+    ("isinstance(variable_.defuzzifier, IntegralDefuzzifier)", "(σ.variable_.2.defuzz == .integral)", "Bool", True),
+    ("variable_.defuzzifier", "(σ.variable_.2.defuzz != .none)", "Bool", True),
+    ("variable_.aggregation", "σ.variable_.2.aggr", "Bool", True),
+    ("rule_block.rules", "σ.rule_block.rules", f"List {RDY}.Rule", True),
+    ("rule_block.conjunction", "σ.rule_block.conj", "Bool", True),
+    ("rule_block.disjunction", "σ.rule_block.disj", "Bool", True),
+    ("rule_block.implication", "σ.rule_block.impl", "Bool", True),
+    ("f' {Rule.AND} ' in rule.antecedent.text", "σ.rule.textAnd", "Bool", True),
+    ("f' {Rule.OR} ' in rule.antecedent.text", "σ.rule.textOr", "Bool", True),
+    ("rule.is_loaded()", "σ.rule.loaded", "Bool", True),
+    ("rule.consequent.conclusions", "σ.rule.concls", "List Nat", True),               # the variable each one refers to
+    ("isinstance(consequent.variable, OutputVariable)", "(e.outputs[σ.consequent]?).isSome", "Bool", True),
+    ("isinstance(consequent.variable.defuzzifier, IntegralDefuzzifier)", "(Op.Ready.isIntegral e.outputs σ.consequent)", "Bool", True),
+]
+READY_PROFILE = {
+    "name": "Engine_is_ready", "module": "fuzzylite.engine", "object": "Engine.is_ready", "file": "CodeReady",
+    "params": [("e", f"{RDY}.Engine"), ("errors0", f"Option (List {RDY}.Err)")],
+    "init": {"errors": "(errors0.getD [])"},
+    "ignore_locals": ["name_or_index"],
+    "locals": {"errors": f"List {RDY}.Err", "variable": f"Nat × {RDY}.Output", "index": "Nat", "rule_block": f"{RDY}.Block",
+               "conjunction_needed": "Nat", "disjunction_needed": "Nat", "implication_needed": "Nat",
+               "rule": f"{RDY}.Rule", "mamdani_consequents": "Nat", "consequent": "Nat"},
+    "ret": "Bool",
+    "externals": READY_EXT, "stmt_externals": READY_STMT,
+}
+# ---- end Engine.is_ready
+
+# ---- OutputVariable.defuzzify (C12): the value cascade of Op/Cascade.lean; the array `value` is the list of its rows
+XL = "List (X Rat)"
+CASCADE_PROFILE = {
+    "name": "OutputVariable_defuzzify", "module": "fuzzylite.variable", "object": "OutputVariable.defuzzify", "file": "CodeCascade",
+    # c: the settings of the variable; has_defuzzifier: `self.defuzzifier` is set; raw: what `defuzzifier.defuzzify(...)`
+    # returns or raises; s: value / previous_value before the call
+    "params": [("c", "Op.CascadeCfg Rat"), ("has_defuzzifier", "Bool"), ("raw", f"Py.M ({XL})"), ("s", "Op.OutState Rat")],
+    "init": {"self_value": "s.value", "self_previous_value": "s.previous"},
+    "locals": {"value": XL, "previous_value": "X Rat", "value_i": "X Rat", "self_value": XL, "self_previous_value": "X Rat"},
+    "externals": [
+        ("self.enabled", "c.enabled", "Bool", True),
+        ("self.defuzzifier", "has_defuzzifier", "Bool", True),
+        ("np.array(self.defuzzifier.defuzzify(self.fuzzy, self.minimum, self.maximum), dtype=float)", "raw", XL, False),
+        ("np.take(self.value, -1).astype(float)", "(Op.lastOr X.nan σ.self_value)", "X Rat", True),
+        ("self.lock_previous", "c.lockPrev", "Bool", True),
+        ("self.previous_value", "σ.self_previous_value", "X Rat", True),
+        ("self.default_value", "c.dflt", "X Rat", True),
+        ("np.isnan(_0)", "(X.isnan {0})", "Bool", True, ["X Rat"]),
+    ],
+    "stmt_externals": [
+        ("value[np.isnan(value)] = self.default_value", "{{ σ with value := Py.Cascade.maskNan σ.value c.dflt }}", True),
+        ("self.value = value", "{{ σ with self_value := Py.Cascade.setValue c σ.value }}", True),
+    ],
+}
+# ---- end OutputVariable.defuzzify
+
+# ---- Engine.process (C01): the top-level structure of Op.Engine.processRow (one input row)
+ENG = "Op.Engine"
+PROCESS_PROFILE = {
+    "name": "Engine_process", "module": "fuzzylite.engine", "object": "Engine.process", "file": "CodeEngine",
+    # fz: the fuzzy output (list of activated terms) of the output variable at each position before the call
+    "params": [("F", "Fn Rat"), ("e", f"{ENG}.EngineD Rat"), ("fz", f"Nat → List ({ENG}.Act Rat)")],
+    "init": {"fuzzy": "((List.range e.outputs.length).map fz)"},
+    "locals": {"variable": f"Nat × {ENG}.OutVar Rat", "block": f"{ENG}.Block Rat", "fuzzy": f"{ENG}.Fuzzy Rat",
+               "rules": f"List (List ({ENG}.RuleObs Rat))", "raw": "List (Option (X Rat))"},
+    "externals": [
+        ("self.output_variables", "(Py.enumerate e.outputs)", f"List (Nat × {ENG}.OutVar Rat)", True),   # (position, variable)
+        ("self.rule_blocks", "e.blocks", f"List ({ENG}.Block Rat)", True),
+        ("block.enabled", "σ.block.enabled", "Bool", True),
+    ],
+    "stmt_externals": [
+        ("variable_.fuzzy.clear()", "{{ σ with fuzzy := σ.fuzzy.set σ.variable_.1 [] }}", True),
+        ("block.activate()",
+         "(Py.Eng.ofOption (Op.Engine.activateBlock F e.inputs e.outputs σ.block σ.fuzzy) >>= fun p => .ok {{ σ with fuzzy := p.1, rules := σ.rules ++ [p.2] }})", False),
+        ("variable_.defuzzify()",
+         "(Py.Eng.defuzzifyVar F e σ.fuzzy σ.variable_ >>= fun r => .ok {{ σ with raw := σ.raw ++ [r] }})", False),
+    ],
+}
+# ---- end Engine.process
 
 PROFILES = [
     {
@@ -121,6 +223,9 @@ PROFILES = [
     act("Highest", HEAP, [("n", "Nat")], fuel={2: "σ.activate.length + 1"}),
     act("Lowest", HEAP, [("n", "Nat")], fuel={2: "σ.activate.length + 1"}),
     act("Proportional", dict(DEG, sum_degrees="X Rat", activate="List Nat", ref="Nat"), loop_rename={2: {"rule": "ref"}}),
+    READY_PROFILE,
+    CASCADE_PROFILE,
+    PROCESS_PROFILE,
 ]
 
 FILES = {
@@ -128,4 +233,7 @@ FILES = {
     "CodeFunction": {"imports": ["FlVerif.Op.PyExt"]},
     "CodeFunctionParse": {"imports": ["FlVerif.Op.PyExtFunction"]},
     "CodeActivation": {"imports": ["FlVerif.Op.PyExtAct"]},
+    "CodeReady": {"imports": ["FlVerif.Op.PyExtReady"]},
+    "CodeCascade": {"imports": ["FlVerif.Op.PyExtCascade"]},
+    "CodeEngine": {"imports": ["FlVerif.Op.PyExtEngine"]},
 }
